@@ -77,7 +77,7 @@ package literal
 
 // What Literal.UUID hashes: the bytes of the boxed value (no type tag).
 //@ spec def litEnc(v Any) String = ite(typeis(v, "bool"), ite(unbox(v, "bool"), "true", "false"), ite(typeis(v, "int64"), padTo(varintBytes(unbox(v, "int64")), 8), ite(typeis(v, "float64"), le64Bytes(f64bits(unbox(v, "float64"))), ite(typeis(v, "string"), unbox(v, "string"), ite(typeis(v, "[]byte"), unbox(v, "[]byte"), "")))))
-//@ props C06
+//@ props C06 C01 C02
 //@ axiom lu-def: forall l *Literal :: {lu(l)} lu(l) == sha16(litEnc(l.v))
 //@ pool bufPool: x != nil
 //@ func (l *Literal) UUID
@@ -86,6 +86,7 @@ package literal
 //@   ensures[hash-of-value-bytes] result == sha16(litEnc(l.v))
 //@   ensures[is-lu] result == lu(l) && len(result) == 16
 
+//@ props C06
 // The literal encoding identifies the value among values of the same dynamic type. (Across types it
 // does not: see the known findings of C06.)
 //@ spec def litValue(v Any) Bool = typeis(v, "bool") || typeis(v, "int64") || typeis(v, "float64") || typeis(v, "string") || typeis(v, "[]byte")
